@@ -342,7 +342,7 @@ def gen_C11(ctx):
     out += [c for c in st_long_api(ctx) if c["req"].startswith("quals ")]
     out += st_dup_keys(["S", "P"])
     out += st_bsearch(ctx, ctx.n(2500, 200000), "c11-bsearch")
-    out += st_iter_scripts()
+    out += st_iter_scripts() + st_iter_random(ctx, ctx.n(2000, 200000))
     return out
 
 
